@@ -157,13 +157,37 @@ func init() {
 			// returns of currentBucketOfTime
 			get := c.P.Func(sbPkg + ".(*AtomicBucketWrapArray).get")
 			cas := c.P.Func(sbPkg + ".(*AtomicBucketWrapArray).compareAndSet")
+			type bucketCase struct {
+				v     ssa.Value
+				blk   *ssa.BasicBlock
+				extra []Fact
+				pos   token.Pos
+				key   string
+			}
+			var cases []bucketCase
 			for i, r := range returnsOf(cur) {
 				if len(r.Results) != 2 || isNilConst(r.Results[0]) {
 					continue
 				}
 				key := fmt.Sprintf("%s / return-bucket#%d", fnKey(cur), i+1)
-				v := r.Results[0]
-				facts := canonFacts(r.Block())
+				rcs := splitPhiCases(r.Results[0], r.Block(), nil, 0)
+				for j, cs := range rcs {
+					k := key
+					if len(rcs) > 1 {
+						k = fmt.Sprintf("%s.%d", key, j+1)
+					}
+					if isNilConst(cs.val) {
+						continue
+					}
+					cases = append(cases, bucketCase{cs.val, cs.block, cs.extra, r.Pos(), k})
+				}
+			}
+			for _, bc := range cases {
+				key := bc.key
+				v := bc.v
+				r := struct{ Pos func() token.Pos }{func() token.Pos { return bc.pos }}
+				rBlock := bc.blk
+				facts := canonFacts(rBlock, bc.extra...)
 				switch x := v.(type) {
 				case *ssa.Call:
 					if x.Call.IsInvoke() && x.Call.Method.Name() == "ResetBucketTo" {
@@ -186,7 +210,7 @@ func init() {
 					}
 				case *ssa.Alloc:
 					won := false
-					for _, ft := range condFacts(r.Block()) {
+					for _, ft := range append(condFacts(rBlock), bc.extra...) {
 						if call, ok := ft.Cond.(*ssa.Call); ok && ft.Truth && isStaticCallTo(call, cas) {
 							won = true
 						}
@@ -529,4 +553,19 @@ func commuteEq(s string) string {
 // one named construct, one reason
 var unsignedSubExceptions = map[string]string{
 	"core/stat/base.(*SlidingWindowMetric).GetPreviousQPS / uint64-sub#1": "now - bucketLength wraps only when now < one bucket length; the wrapped value is a far-future timestamp for which isBucketDeprecated holds for every bucket, so the result 0 equals the reference (there are no events before time 0)",
+}
+
+// splitPhiCases splits a value into its phi alternatives (recursively), each with the block it comes from and the
+// branch fact of the incoming edge.
+func splitPhiCases(v ssa.Value, blk *ssa.BasicBlock, extra []Fact, depth int) []retCase {
+	phi, ok := v.(*ssa.Phi)
+	if !ok || depth > 3 {
+		return []retCase{{val: v, block: blk, extra: extra}}
+	}
+	var out []retCase
+	for i, e := range phi.Edges {
+		pred := phi.Block().Preds[i]
+		out = append(out, splitPhiCases(e, pred, edgeFact(pred, phi.Block()), depth+1)...)
+	}
+	return out
 }
